@@ -74,7 +74,7 @@ let stype_of s = match Codec.stype_of_name (bytes_of_str s) with Some t -> t | N
 
 let run_case kind (args : string list) : string =
   match kind, args with
-  | "enc", [m] ->
+  | "enc", (m :: _) ->   (* an optional pre=N (bytes already in the write buffer) does not change what is appended *)
       (match Codec.encode_msg (msg_tok m) with
        | Res.Ok bs -> "ok " ^ hex_of bs
        | Res.Err e -> "err " ^ err_str e
